@@ -34,7 +34,8 @@ func vhRect(x0, y0, x1, y1 float64, ccw bool) vhPgon {
 // vhWindingAt: winding number of the (closed) subpaths of p around (x,y) by the crossing rule,
 // written branch-free so that it becomes one term; clear reports whether (x,y) is at least 1e-5
 // (in cross-product units per unit length) away from every edge's supporting segment.
-func vhWindingAt(p *Path, x, y float64) (w int, clear bool) {
+func vhWindingAt(p *Path, x, y float64) (wn int, clear bool) {
+	var w int8 // 8-bit counter: far cheaper for the solver than 64-bit adders, ample for <= 100 edges
 	clear = true
 	// the solver is asked for points at least 1e-5 away from the boundaries; the replay accepts
 	// half of that, so that rounding the model to float64 cannot flip the assumption
@@ -69,7 +70,7 @@ func vhWindingAt(p *Path, x, y float64) (w int, clear bool) {
 			clear = clear && far && math.Abs(y-a.Y) >= m
 		}
 	}
-	return w, clear
+	return int(w), clear
 }
 
 // table of subject shapes (index, description in comments)
@@ -244,7 +245,8 @@ func VH_C01_suite_region_Q() {
 	vAssert("C01.suite.operands_unchanged", vhSameData(p.d, pBefore) && vhSameData(q.d, qBefore))
 	vAssert("C01.suite.wellformed", vhStructWF(r))
 	x, y := vNondetF64(), vNondetF64()
-	vAssume(-30 <= x && x <= 40 && -30 <= y && y <= 40)
+	vAssume(-30 <= x && x <= 40)
+	vhBandY(y, -30, 40, p, q, r)
 	wp, c1 := vhWindingAt(p, x, y)
 	wq, c2 := vhWindingAt(q, x, y)
 	wr, c3 := vhWindingAt(r, x, y)
@@ -275,7 +277,8 @@ func VH_C02_suite_region_Q() {
 	vAssert("C02.suite.receiver_unchanged", vhSameData(p.d, before))
 	vAssert("C02.suite.wellformed", vhStructWF(r))
 	x, y := vNondetF64(), vNondetF64()
-	vAssume(-30 <= x && x <= 40 && -30 <= y && y <= 40)
+	vAssume(-30 <= x && x <= 40)
+	vhBandY(y, -30, 40, p, r)
 	win, c1 := vhWindingAt(p, x, y)
 	wout, c2 := vhWindingAt(r, x, y)
 	vAssume(c1 && c2)
@@ -294,4 +297,38 @@ func vhAllClosed(p *Path) bool {
 		}
 	}
 	return true
+}
+
+// vhBandY splits the plane into the horizontal bands between consecutive vertex levels of the
+// given paths (one path of the exploration per band, chosen with vChoose) and assumes that y
+// lies inside the chosen band, at least 2e-5 away from its borders.  With y in a known band every
+// "does this edge span y" test of the winding oracle is decided, which keeps the queries small.
+func vhBandY(y float64, lo, hi float64, paths ...*Path) {
+	levels := []float64{lo, hi}
+	for _, p := range paths {
+		subs, _ := vhDecode(p.d)
+		for _, sb := range subs {
+			levels = append(levels, sb.start.Y)
+			for _, sg := range sb.segs {
+				levels = append(levels, sg.end.Y)
+			}
+		}
+	}
+	// insertion sort and de-duplication (all concrete)
+	for i := 1; i < len(levels); i++ {
+		for j := i; j > 0 && levels[j] < levels[j-1]; j-- {
+			levels[j], levels[j-1] = levels[j-1], levels[j]
+		}
+	}
+	var uniq []float64
+	for _, l := range levels {
+		if l < lo || l > hi {
+			continue
+		}
+		if len(uniq) == 0 || l-uniq[len(uniq)-1] > 1e-4 {
+			uniq = append(uniq, l)
+		}
+	}
+	k := vChoose(0, len(uniq)-2)
+	vAssume(uniq[k]+2e-5 <= y && y <= uniq[k+1]-2e-5)
 }
